@@ -186,9 +186,9 @@ int main(int argc, char **argv) {
             cv_free(&cv);
         }
         /* very long lines at fine resolutions (thousands of cells): local coordinates times distance approach 2^31 */
-        for (int t = 0; t < (quick ? 3 : 12); t++) {
-            int res = 13 + (t % 3); H3Index a = vt_random_cell(res);
-            H3Index b = straight(a, (quick ? 900 : 1200) + (int)vt_randn(quick ? 600 : 3500));
+        for (int t = 0; t < (quick ? 8 : 30); t++) {
+            int res = t % 2 ? 15 : 13 + (t / 2) % 3; H3Index a = vt_random_cell(res);
+            H3Index b = straight(a, (res == 15 ? 2500 : res == 14 ? 4000 : 6000) + (int)vt_randn(quick ? 2500 : 6000));
             ev_path(a, b);
         }
     } else return 2;
